@@ -9,12 +9,6 @@
 // reports it and no verdict is asserted.
 package c09
 
-import (
-	"pgregory.net/rapid"
-
-	"verifharness/internal/rp"
-)
-
 var badVersions = []string{"", "2.0", "1", "1.0.0", "1.0 ", "v1.0", "1.1", "0.1", "01.0"}
 var badLevels = []string{"", "Strict", "STRICT", "strict ", "enforce", "custom", "Skip", "skip ", "none"}
 var badVTs = []string{"never", "Always", "aftercertexpiry", "always ", "true"}
@@ -30,25 +24,25 @@ func (g *gen) assembled(kind string) *Doc {
 	rt := g.rt
 	d := &Doc{Kind: kind, Version: "1.0"}
 	if g.rarely("badVersion") {
-		d.Version = rp.Pick(rt, "version", badVersions...)
+		d.Version = pick(rt, "version", badVersions...)
 	}
-	n := rapid.IntRange(1, 4).Draw(rt, "nStmts")
+	n := intRange(rt, "nStmts", 1, 4)
 	if g.rarely("noStmts") {
 		n = 0
 	}
 	for i := 0; i < n; i++ {
 		s := Stmt{Name: g.name(i), Level: g.level(false), VT: g.verifyTimestamp()}
 		if i > 0 && g.rarely("dupName") {
-			s.Name = d.Stmts[rapid.IntRange(0, i-1).Draw(rt, "dupOf")].Name
+			s.Name = d.Stmts[intRange(rt, "dupOf", 0, i-1)].Name
 		}
 		if g.rarely("emptyName") {
 			s.Name = ""
 		}
 		if g.rarely("badLevel") {
-			s.Level = rp.Pick(rt, "badLevelV", badLevels...)
+			s.Level = pick(rt, "badLevelV", badLevels...)
 		}
 		if g.rarely("badVT") {
-			s.VT = rp.Pick(rt, "badVTV", badVTs...)
+			s.VT = pick(rt, "badVTV", badVTs...)
 		}
 		if s.isSkip() {
 			if g.rarely("skipStores") {
@@ -69,23 +63,23 @@ func (g *gen) assembled(kind string) *Doc {
 			}
 		}
 		if g.rarely("anyOverride") {
-			kv := rp.Pick(rt, "pair", overridePairs...)
+			kv := pick(rt, "pair", overridePairs...)
 			s.setOverride(kv.K, kv.V)
 		}
 		if g.rarely("badStore") {
-			b, _ := badStore(g, rp.Pick(rt, "storeRule", "store-no-colon", "store-unknown-type", "store-bad-name"))
+			b, _ := badStore(g, pick(rt, "storeRule", "store-no-colon", "store-unknown-type", "store-bad-name"))
 			putStore(g, &s, b)
 		}
 		if g.rarely("badIdent") {
-			b, _ := badIdent(g, rp.Pick(rt, "identRule", "x509-empty-value", "dn-unparsable", "dn-missing-c", "dn-missing-st", "dn-missing-o",
+			b, _ := badIdent(g, pick(rt, "identRule", "x509-empty-value", "dn-unparsable", "dn-missing-c", "dn-missing-st", "dn-missing-o",
 				"dn-duplicate-attribute", "dn-multivalued-rdn", "dn-hex-value"))
 			putIdent(g, &s, b)
 		}
 		if g.rarely("overlap") {
-			addOverlap(g, &s, rp.Pick(rt, "overlapRule", "ids-overlap-equal", "ids-overlap-subset"))
+			addOverlap(g, &s, pick(rt, "overlapRule", "ids-overlap-equal", "ids-overlap-subset"))
 		}
 		if g.rarely("wildID") && len(s.IDs) > 0 {
-			at := rapid.IntRange(0, len(s.IDs)).Draw(rt, "wildIDAt")
+			at := intRange(rt, "wildIDAt", 0, len(s.IDs))
 			s.IDs = append(s.IDs[:at:at], append([]Ident{{Text: wildcard}}, s.IDs[at:]...)...)
 		}
 		if kind == "oci" {
@@ -102,7 +96,7 @@ func (g *gen) assembled(kind string) *Doc {
 				putScope(g, &s, b)
 			}
 			if g.rarely("wildScopeCompany") && len(s.Scopes) > 0 {
-				at := rapid.IntRange(0, len(s.Scopes)).Draw(rt, "wildScopeAt")
+				at := intRange(rt, "wildScopeAt", 0, len(s.Scopes))
 				s.Scopes = append(s.Scopes[:at:at], append([]Scope{{Text: wildcard}}, s.Scopes[at:]...)...)
 			}
 			if i > 0 && g.rarely("sharedScope") {
@@ -120,7 +114,7 @@ func (g *gen) assembled(kind string) *Doc {
 					}
 				}
 				if len(others) > 0 {
-					s.Scopes = append(s.Scopes, rp.Pick(rt, "sharedWhich", others...))
+					s.Scopes = append(s.Scopes, pick(rt, "sharedWhich", others...))
 				}
 			}
 		} else if chance(rt, "global", 5) {
